@@ -25,6 +25,8 @@ type c21Case struct {
 	// anywhere in emulated time (the generators count emulated time for as long as the machine runs)
 	Idle   int `json:"idle,omitempty"`
 	Cycles int `json:"cycles,omitempty"`
+	// Junk: the trigger write to NRx4 also has the unused bits 3-5 set (38): only bits 0-2 are frequency bits
+	Junk bool `json:"junk_bits,omitempty"`
 }
 
 func c21Setup(ch, f int, silent ...bool) *machine.M {
@@ -34,6 +36,10 @@ func c21Setup(ch, f int, silent ...bool) *machine.M {
 }
 
 func c21Program(m *machine.M, ch, f int, silent ...bool) {
+	junk := uint8(0)
+	if len(silent) > 1 && silent[1] {
+		junk = 0x38
+	}
 	w := m.Map.Write
 	w(0xff26, 0x00)
 	w(0xff26, 0x80)
@@ -46,16 +52,16 @@ func c21Program(m *machine.M, ch, f int, silent ...bool) {
 		w(0xff10, 0x00)
 		w(0xff12, vol)
 		w(0xff13, uint8(f))
-		w(0xff14, 0x80|uint8(f>>8))
+		w(0xff14, 0x80|junk|uint8(f>>8))
 	case 2:
 		w(0xff17, vol)
 		w(0xff18, uint8(f))
-		w(0xff19, 0x80|uint8(f>>8))
+		w(0xff19, 0x80|junk|uint8(f>>8))
 	case 3:
 		w(0xff1a, 0x80)
 		w(0xff1c, lvl)
 		w(0xff1d, uint8(f))
-		w(0xff1e, 0x80|uint8(f>>8))
+		w(0xff1e, 0x80|junk|uint8(f>>8))
 	default:
 		w(0xff21, vol)
 		w(0xff22, uint8(f))
@@ -73,9 +79,9 @@ func c21Check(l *explore.Local, _ struct{}, c c21Case) *explore.Fail {
 		for i := 0; i < c.Idle; i++ {
 			m.A.EndMachineCycle()
 		}
-		c21Program(m, c.Ch, c.F, c.Silent)
+		c21Program(m, c.Ch, c.F, c.Silent, c.Junk)
 	} else {
-		m = c21Setup(c.Ch, c.F, c.Silent)
+		m = c21Setup(c.Ch, c.F, c.Silent, c.Junk)
 	}
 	var period int // clock cycles per waveform step
 	name := ""
@@ -255,6 +261,10 @@ func c21ChangeCheck(l *explore.Local, _ struct{}, c c21Change) *explore.Fail {
 			sinceStep = 0
 		} else if d > 0 {
 			sinceStep = 0
+		}
+		if written && c.F1 >= 0 && c.NR10 == 0 && f != c.F1 {
+			return explore.Failf(fmt.Sprintf("channel %d: the frequency registers do not hold the value written", c.Ch),
+				"ch%d f0=%03x: after the frequency registers were rewritten with %03x (low byte%s) without a trigger the channel's frequency is %03x", c.Ch, c.F0, c.F1, map[bool]string{true: " and high bits", false: " only"}[c.F1>>8 != c.F0>>8], f)
 		}
 		if f != curF {
 			curF = f
@@ -444,6 +454,14 @@ func init() {
 					}
 					if !yield(c21Case{Ch: 4, F: v, Steps: 6, Silent: true}) {
 						return
+					}
+				}
+				// the trigger written with the unused bits 3-5 of NRx4 set
+				for ch := 1; ch <= 3; ch++ {
+					for _, f := range []int{0x000, 0x400, 0x6d6, 0x7ff} {
+						if !yield(c21Case{Ch: ch, F: f, Steps: 12, Junk: true}) {
+							return
+						}
 					}
 				}
 				yield(c21Case{Ch: 5})
